@@ -220,6 +220,7 @@ inline Session genSession(Choices& c, const std::vector<Option>& opts, const Gen
         else cmd.pace = P_BESTMOVE;
     };
     bool ended = false;
+    if (c.chance(1, 5)) { Cmd ob; ob.kind = "setoption"; ob.text = "setoption name OwnBook value true"; s.cmds.push_back(ob); }
     for (int i = 0; i < n && !c.empty() && !ended; i++) {
         Cmd cmd;
         int k = c.pick(100);
@@ -264,6 +265,7 @@ struct RunResult {
     std::string exitDesc, stderrText;
     bool hang = false;          // no exit and zero CPU progress over the last 20 s
     bool stillBusy = false;     // no exit but still consuming CPU (inconclusive)
+    bool searchAfterQuit = false; // search output more than 20 s after quit/EOF was sent
     int cmdsDuringSearch = 0;
 };
 
@@ -309,6 +311,9 @@ inline RunResult execute(const Session& s, const RunCfg& rc) {
             long used = -1;
             for (auto& sm : samples) if (now - sm.first <= 20500) { used = samples.back().second - sm.second; break; }
             if (used >= 0 && used < tps) r.hang = true; else r.stillBusy = true;
+            // still producing search output long after quit/EOF = the search was never stopped
+            for (auto& en : e.log)
+                if (en.dir == '<' && en.t > start + 20000 && uci::isSearchOutput(uci::classify(en.line))) { r.searchAfterQuit = true; break; }
             break;
         }
     }
@@ -325,6 +330,7 @@ inline RunResult execute(const Session& s, const RunCfg& rc) {
 // `inconclusive` is set when the run could not be judged (engine still busy at the timeout).
 inline std::string monitor(const Session& s, const RunResult& r, bool& inconclusive) {
     inconclusive = false;
+    if (r.stillBusy && r.searchAfterQuit) return "the search was still running (search output) more than 20 s after quit/EOF; the process did not exit within 45 s";
     if (r.stillBusy) { inconclusive = true; return ""; }
     if (r.hang) return "hang: process did not exit within 45 s of quit/EOF and used < 5% of one core during the last 20 s (" + r.exitDesc + ")";
     if (!r.exited) return "process did not exit";
